@@ -14,8 +14,10 @@ package main
 //     accepted either way (the statement does not decide it)
 //   - the predicate is called with the cell's current value (absent = 0,
 //     S3), otherwise value-based predicates would select the wrong cells
-// Row/column/grand totals after a Trim are NOT checked: the statement does not
-// say whether they are recomputed.
+// Row/column totals after a Trim are NOT checked for a row/column that lost a
+// present cell and survived: the statement does not say whether they are
+// recomputed. Every other row/column (untouched by the Trim, or created by the
+// follow-up sample) must still total the sum of its cells (totalsScope).
 
 import (
 	"fmt"
@@ -43,7 +45,7 @@ func runTrim(samples []string, selected map[string]bool, follow *string) (res re
 			}
 		}
 		var st string
-		if f := checkTable(impl, ref, &where, &st, true); f != nil {
+		if f := checkTable(impl, ref, &where, &st, allTotals); f != nil {
 			return f
 		}
 		gridCols := sortedKeys(ref.cols)
@@ -99,6 +101,20 @@ func runTrim(samples []string, selected map[string]bool, follow *string) (res re
 				}
 			}
 		}
+		// totals (see totalsScope): exempt are the rows/columns that lost a present cell and survive (or may survive)
+		tot := totalsScope{mode: 2, staleRow: map[string]bool{}, staleCol: map[string]bool{}, lateRow: map[string]bool{}, lateCol: map[string]bool{}}
+		for r, cs := range ref.cells {
+			for c := range cs {
+				if selected[cellKey(c, r)] {
+					if _, survives := after.cells[r]; survives {
+						tot.staleRow[r] = true
+					}
+					if mustCol[c] || !goneCol[c] {
+						tot.staleCol[c] = true
+					}
+				}
+			}
+		}
 		check := func(stage string) *fail {
 			where = "Columns"
 			cols := impl.Columns()
@@ -124,7 +140,7 @@ func runTrim(samples []string, selected map[string]bool, follow *string) (res re
 			// the either-way columns are taken from the implementation; everything else is checked exactly
 			after.cols = have
 			var st string
-			if f := checkTable(impl, after, &where, &st, false); f != nil {
+			if f := checkTable(impl, after, &where, &st, tot); f != nil {
 				f.sig = strings.Replace(f.sig, "C07/table/", "C07/trim/", 1)
 				switch f.sig {
 				case "C07/trim/cell-mismatch":
@@ -147,8 +163,16 @@ func runTrim(samples []string, selected map[string]bool, follow *string) (res re
 			impl.Sample(*follow)
 			res.transitions++
 			p := refSplit(*follow, "\x00")
+			frow := ""
+			if len(p) >= 2 {
+				frow = p[1]
+			}
+			_, hadRow := after.cells[frow]
+			hadCol := mustCol[p[0]] || (ref.cols[p[0]] && !goneCol[p[0]])
 			if after.sample(*follow) {
 				mustCol[p[0]] = true
+				tot.lateRow[frow] = !hadRow
+				tot.lateCol[p[0]] = !hadCol
 			}
 			if f := check("after Trim and one more sample " + q(*follow)); f != nil {
 				return f
